@@ -126,6 +126,8 @@ void sim_apply_plan(const Plan *p)
 }
 
 int (*g_quiesce_hook)(void);
+extern int g_preempt_on;
+extern int64_t g_preempt_mean;
 
 static int quiesce_handler(void)
 {
@@ -159,8 +161,15 @@ void conn_run(const Plan *p, const CredSet *cs, HonestOut *out,
 	c->on_record = on_record;
 
 	Endpoint *cl = &g_ep[0], *sv = &g_ep[1];
-	if (ep_setup(cl, 0, c, p, cs, 0) != 1 || ep_setup(sv, 1, c, p, cs, 1) != 1)
-		die("ep_setup failed");
+	if (ep_setup(cl, 0, c, p, cs, 0) != 1 || ep_setup(sv, 1, c, p, cs, 1) != 1) {
+		/* the library refused this configuration (e.g. a trust bundle larger than
+		 * TLS_MAX_CERTIFICATES_SIZE): nothing ran; callers see hs_ret = -98 */
+		out->hs_ret[0] = out->hs_ret[1] = -98;
+		out->setup_refused = 1;
+		ep_free(cl); ep_free(sv);
+		arena_end();
+		return;
+	}
 	if (pre_run) pre_run(cl, sv);
 
 	g_sim.next_event = net_next_event;
@@ -168,7 +177,13 @@ void conn_run(const Plan *p, const CredSet *cs, HonestOut *out,
 	g_sim.on_switch = mon_on_switch;
 	cl->task = sim_spawn("client", 0, ep_task, cl);
 	sv->task = sim_spawn("server", 1, ep_task, sv);
+	/* in the -finstrument-functions builds the two endpoint tasks are also preempted
+	 * inside library code (function entries), like two caller threads would be */
+	g_preempt_mean = p->preempt_mean > 0 ? p->preempt_mean : 50;
+	preempt_reset(0);
+	g_preempt_on = p->preempt_mean > 0;
 	sim_run();
+	g_preempt_on = 0;
 	mon_on_switch(-1);
 
 	Endpoint *e[2] = { cl, sv };
